@@ -1715,7 +1715,7 @@ ssize_t simk_write(int fd, const void *buf, size_t count)
 		errno = EINVAL;
 		return -1;
 	}
-	if (fs_write_errno != 0) {
+	if (fs_write_errno != 0 && fs_write_accept < 0) {
 		int e = fs_write_errno;
 		fs_write_errno = 0;
 		errno = e;
@@ -1723,6 +1723,7 @@ ssize_t simk_write(int fd, const void *buf, size_t count)
 	}
 	size_t n = count;
 	if (fs_write_accept >= 0) {
+		/* a short write; an errno given together with it is reported by the write after this one */
 		if ((size_t)fs_write_accept < n) {
 			n = (size_t)fs_write_accept;
 		}
